@@ -313,3 +313,44 @@ def extra_units():
     from contracts import c08
     from pyvc.units import share
     return [share(c08.bp_chunked, PROP)] + [share(u, PROP) for u in c08.UNITS if getattr(u, 'name', '').startswith('bp_chunked[chunks after')]
+
+
+# ------------------------------------------------------------------------------ get_bins_from_bed_dict: the blacklist as it is read
+# blacklisted_binning_contigs uses the BED reader through an assumed contract (contig -> intervals); here the reader itself on a
+# 3-row file: every row is under its contig with its own coordinates, in file order, nothing else
+def bed_setup(eng):
+    from pyvc import segstr as _segstr, stubs
+    from pyvc.engine import Builtin as _Builtin, Obj, named
+    eng.ghost.clear()
+    rows = []
+    for i in range(3):
+        c = _segstr.register_atom(eng, named(STR, 'bed_contig_%d' % i), ' \t\n\r\x0b\x0c')
+        s_, e_ = named(INT, 'bed_start_%d' % i), named(INT, 'bed_end_%d' % i)
+        eng.assume(z3.And(z3.Length(c.z) >= 1, s_.z >= 0, e_.z >= s_.z))
+        rows.append((c, s_, e_))
+    eng.spec_env['ROWS'] = rows
+    tails = ['\n', '\tname\t0\t+\n', '\n']      # BED3 rows and a row with further columns
+    lines = [_segstr.build([c, '\t'] + _segstr.parts_of(eng.to_str(s_)) + ['\t'] + _segstr.parts_of(eng.to_str(e_)) + [t])
+             for (c, s_, e_), t in zip(rows, tails)]
+    fh = Obj('TextFile', {'lines': lines})
+    fh.vc_immutable = True
+    stubs.STUBS['TextFile'] = {'methods': {'__enter__': lambda e, o: o, '__exit__': lambda e, o, *a: None,
+                                           '__iter__': lambda e, o: list(o.attrs['lines'])}, 'props': {}, 'setters': {}}
+    eng.spec_env['open'] = _Builtin('open', lambda e, a, k, n: fh)
+
+
+bed_reader = Contract(
+    PROP, F + '::get_bins_from_bed_dict', name='get_bins_from_bed_dict[3 BED rows]',
+    params={'path': ('const', 'blacklist.bed'), 'contig': 'none'},
+    setup=bed_setup,
+    ensures={
+        'every_row_is_listed_under_its_contig':
+            'all(any(c == ROWS[i][0] and any(t[0] == ROWS[i][1] and t[1] == ROWS[i][2] for t in result[c]) for c in result) '
+            'for i in range(3))',
+        'nothing_else_is_listed': 'sum([len(result[c]) for c in result]) == 3',
+    },
+    raises={},
+    bounded='a BED file of 3 rows (symbolic contig names - equal or different - and coordinates; one row with extra columns)',
+    assumptions=['text file iteration yields the lines (A4)'],
+)
+UNITS.append(bed_reader)
